@@ -56,6 +56,7 @@ def run(ctx):
     translation(ctx)
     bindings(ctx)
     subscript_axes(ctx, 'C02.6')
+    xarray_adapter(ctx, 'C02.6')
     linearisation(ctx)
 
 
@@ -192,6 +193,57 @@ def bindings(ctx):
                     ctx.ok('C02.6', f, '%s(%s=%s)' % (e.target.name, p_, U(v)[:30]), 'axis %s%s agrees' % (
                         aax, (' and kind ' + ak) if pk and ak else ''))
     ctx.floor('C02.6', 30, 'tagged argument bindings')
+
+
+def xarray_adapter(ctx, rule):
+    """The xarray backend declares IndexingSupport.BASIC: its raw indexing method receives, per axis, an integer (the
+    axis is dropped) or a slice that may carry a step.  Reading the bounding box is fine (C07 says so), but the value
+    returned must then be post-indexed: by the step on sliced axes and by a scalar on integer axes.  A method that
+    returns the bare read_subvolume(...) result, or whose post-index never depends on the steps, returns the
+    unstepped window / an array with a spurious axis."""
+    P = ctx.P
+    f = P.functions.get('sgz_xarray.SeismicZfpBackendArray._raw_indexing_method')
+    if f is None:
+        raise AnalysisError('xarray raw indexing method not found')
+    from ..footer import _def_chain
+    rets = [r for r in ast.walk(f.node) if isinstance(r, ast.Return) and r.value is not None]
+    data_rets = [r for r in rets if any(isinstance(c, ast.Call) and U(c.func).endswith('read_subvolume') for c in ast.walk(r.value))]
+    if not data_rets:
+        raise AnalysisError('%s: no return of a read_subvolume result' % f.qualname)
+    handles_int = any(isinstance(c, ast.Call) and U(c.func) == 'isinstance' and len(c.args) == 2 and U(c.args[1]) == 'slice'
+                      for c in ast.walk(f.node))
+    for r in data_rets:
+        v = r.value
+        post = v.slice if isinstance(v, ast.Subscript) and any(
+            isinstance(c, ast.Call) and U(c.func).endswith('read_subvolume') for c in ast.walk(v.value)) else None
+        if post is None:
+            ctx.fail(rule, f, r, 'the raw indexing method returns the bare read_subvolume(...) window: slice steps are ignored '
+                     '(data[::2] returns every inline) and integer-indexed axes are not dropped (data[3] keeps a length-1 axis), '
+                     'although the backend declares basic indexing support')
+            continue
+        chain = _def_chain(f, post)
+        # everything that flows into the post-index, including appends to lists it is built from
+        names = {x.id for e in chain for x in ast.walk(e) if isinstance(x, ast.Name)}
+        feeders = [c for c in ast.walk(f.node) if isinstance(c, ast.Call) and isinstance(c.func, ast.Attribute) and
+                   c.func.attr in ('append', 'extend', 'insert') and isinstance(c.func.value, ast.Name) and c.func.value.id in names]
+        flow = list(chain) + [a for c in feeders for a in c.args]
+        flow_names = {x.id for e in flow for x in ast.walk(e) if isinstance(x, ast.Name)}
+        step_sources = set()
+        for a in ast.walk(f.node):
+            if isinstance(a, ast.Assign):
+                if isinstance(a.value, ast.Call) and isinstance(a.value.func, ast.Attribute) and a.value.func.attr == 'indices' and \
+                        isinstance(a.targets[0], ast.Tuple) and len(a.targets[0].elts) == 3:
+                    step_sources.add(U(a.targets[0].elts[2]))
+                elif isinstance(a.value, ast.Attribute) and a.value.attr == 'step' and isinstance(a.targets[0], ast.Name):
+                    step_sources.add(a.targets[0].id)
+        uses_step = bool(step_sources & flow_names) or any(isinstance(x, ast.Attribute) and x.attr == 'step' for e in flow for x in ast.walk(e))
+        drops_int = any(isinstance(x, ast.Constant) and x.value == 0 for e in flow for x in ast.walk(e)) or not handles_int
+        if uses_step and drops_int:
+            ctx.ok(rule, f, r, 'window post-indexed by the steps of sliced axes and a scalar on integer axes')
+        else:
+            ctx.fail(rule, f, r, 'the post-index of the window %s' % (
+                'does not depend on the slice steps: stepped requests return the unstepped window' if not uses_step else
+                'never drops integer-indexed axes'))
 
 
 def subscript_axes(ctx, rule):
